@@ -386,7 +386,7 @@ impl Chain {
             100_0000_0000u64 + counter * 1000 + rng.below(1000)
         };
         let mk_output = |rng: &mut Rng, cap: u64| -> (CellOutput, Bytes) {
-            let lock = lock_script(rng.pick_idx(p.n_locks.max(1)));
+            let lock = if p.always_success { super::props::c18::always_success_cell().2 } else { lock_script(rng.pick_idx(p.n_locks.max(1))) };
             let mut b = CellOutputBuilder::default().capacity(Capacity::shannons(cap).pack()).lock(lock);
             if p.n_types > 0 && rng.chance(1, 3) {
                 b = b.type_(Some(type_script(rng.pick_idx(p.n_types))).pack());
